@@ -122,6 +122,20 @@ func vfHistories(env *vfc.Env, prefix string, extra func(c *vfHistCase, sut *vfS
 			}
 			c.Ops = ops2
 		}
+		if a.GC && a.Collide == 0 {
+			// the generator flushes before every pass; half of the passes now start with the
+			// newest acknowledged writes still in the head file's write buffer (separate random
+			// stream: the history itself is unchanged)
+			rd := r.Split(778)
+			var ops2 []model.Op
+			for i, op := range c.Ops {
+				if op.K == "flush" && i+1 < len(c.Ops) && c.Ops[i+1].K == "gc" && rd.Bool() {
+					continue
+				}
+				ops2 = append(ops2, op)
+			}
+			c.Ops = ops2
+		}
 		if a.Collide > 0 {
 			// colliding keys are written with revision 0 only (the shared tree slot has one version counter)
 			for i := range c.Ops {
